@@ -99,6 +99,13 @@ Theorem C12_node_depth_sound : forall g fuel vs z, node_depth_fuel fuel g vs = O
 Proof. exact node_depth_fuel_sound. Qed.
 Print Assumptions C12_node_depth_sound.
 
+(* distance_to_primary_level = node_depth - 1 (or -1) *)
+Theorem C12_distance_to_primary_level_correct : forall g v, wf g -> v < length g ->
+  (distance_to_primary_level g v = Ok (-1)%Z <-> cycle_from g v) /\
+  (forall k, height g v (S k) -> distance_to_primary_level g v = Ok (Z.of_nat k)).
+Proof. exact distance_to_primary_level_correct. Qed.
+Print Assumptions C12_distance_to_primary_level_correct.
+
 (* ---- LinkedGraph.depth ------------------------------------------------------------------------ *)
 Theorem C12_depth_correct : forall g, wf g ->
   (g = [] -> depth g = Ok 0%Z) /\
